@@ -48,7 +48,12 @@ package ice
 //@   ensures old-pair-untouched: pair.state == old(pair.state) && pair.id == old(pair.id)
 
 //@ func (*Agent).replaceRemoteInPairs
-//@   props C06 C03
+//@   props C06 C03 C04
+//@   requires C04 a-selection-exists-only-while-alive: a.getSelectedPair() != nil ==> a.connectionState != ConnectionStateFailed
+//@   loop 1 invariant C04 still-alive-if-selected: a.getSelectedPair() != nil ==> a.connectionState != ConnectionStateFailed
+//@   loop 1 invariant C04 stays-alive-and-keeps-its-selector: (old(a.connectionState) != ConnectionStateFailed ==> a.connectionState != ConnectionStateFailed) && a.selector == old(a.selector)
+//@   ensures C04 stays-alive-and-keeps-its-selector: (old(a.connectionState) != ConnectionStateFailed ==> a.connectionState != ConnectionStateFailed) && a.selector == old(a.selector)
+//@   ensures C04 a-selection-still-exists-only-while-alive: a.getSelectedPair() != nil ==> a.connectionState != ConnectionStateFailed
 //@   requires C03 selected-pair-is-valid: istype(a.selectedPair, *CandidatePair) && a.selectedPair.payload != nil ==> cast(a.selectedPair.payload, *CandidatePair).state == CandidatePairStateSucceeded || a.userBindingRequestHandler != nil
 //@   loop 1 invariant C03 selected-pair-stays-valid: istype(a.selectedPair, *CandidatePair) && a.selectedPair.payload != nil ==> cast(a.selectedPair.payload, *CandidatePair).state == CandidatePairStateSucceeded || a.userBindingRequestHandler != nil
 //@   requires C06 supersession-replaces-by-a-different-candidate: newRemote != oldRemote
@@ -105,7 +110,10 @@ package ice
 //@   modifies fam:H_ice.candidateBase.remoteCandidateCaches*
 
 //@ func (*Agent).replaceRedundantPeerReflexiveCandidates
-//@   props C06
+//@   props C06 C04
+//@   requires C04 a-selection-exists-only-while-alive: a.getSelectedPair() != nil ==> a.connectionState != ConnectionStateFailed
+//@   loop 1 invariant C04 stays-alive-and-keeps-its-selector: (old(a.connectionState) != ConnectionStateFailed ==> a.connectionState != ConnectionStateFailed) && a.selector == old(a.selector) && (a.getSelectedPair() != nil ==> a.connectionState != ConnectionStateFailed)
+//@   ensures C04 stays-alive-and-keeps-its-selector: (old(a.connectionState) != ConnectionStateFailed ==> a.connectionState != ConnectionStateFailed) && a.selector == old(a.selector)
 //@   opt nosafety
 //@   requires a.pairsByID != nil
 //@   ensures a-peer-reflexive-newcomer-supersedes-nothing: cand.Type() == CandidateTypePeerReflexive ==> result == set && unchangedExcept()
@@ -122,13 +130,16 @@ package ice
 // type and is paired only with the current local candidates of that type, only where findPair found
 // no pair, and never when it is TCP-passive (those are dialled, not paired).
 //@ func (*Agent).addRemoteCandidate
-//@   props C06 C18
+//@   props C06 C18 C04
+//@   requires C04 a-selection-exists-only-while-alive: a.getSelectedPair() != nil ==> a.connectionState != ConnectionStateFailed
+//@   ensures C04 stays-alive-and-keeps-its-selector: (old(a.connectionState) != ConnectionStateFailed ==> a.connectionState != ConnectionStateFailed) && a.selector == old(a.selector)
+//@   loop 2 invariant C04 stays-alive-and-keeps-its-selector: (old(a.connectionState) != ConnectionStateFailed ==> a.connectionState != ConnectionStateFailed) && a.selector == old(a.selector)
 //@   ghostvar hostEnabled bool = false
 //@   site call containsCandidateType#1 assert C18 asks-whether-host-candidates-are-enabled: arg0 == CandidateTypeHost && arg1 == a.candidateTypes
 //@   site call containsCandidateType#1 ghost hostEnabled := result
 //@   site call addRemotePassiveTCPCandidate#1 assert C18 active-tcp-host-candidates-only-if-the-host-type-is-enabled: hostEnabled && arg1 == cand
 //@   opt nosafety
-//@   requires a.pairsByID != nil
+//@   requires C06 a.pairsByID != nil
 //@   ghostvar dup bool = false
 //@   ghostvar found *CandidatePair = nil
 //@   ghostvar searched bool = false
